@@ -389,3 +389,5 @@ add("C01", "partial diagonal reshaped without the axis permutation", "nifty/cl/o
 add("C02", "mean-removing wrapper uses one formula for both modes", "nifty/cl/operators/convolution_operators.py", "        if mode == self.TIMES:\n            mean = x.s_mean()\n            return mean + self._op.apply(x - mean, mode)\n", "        mean = x.s_mean()\n        return mean + self._op.apply(x - mean, mode)\n", "R02.14")
 add("C22", "communicator passed in the mirror_samples slot", "nifty/cl/minimization/energy_adapter.py", "                                            n_samples, self._mirror_samples,\n                                            comm=self._comm, nanisinf=self._nanisinf)", "                                            n_samples, self._comm)", "R22.10")
 VARIANTS = V
+add("C05", "domain refresh stops at an already refreshed ancestor", "nifty/cl/operator_tree_optimiser.py", "            index = nodes[index][1]\n            cond = type(index) is int\n", "            if index in _seen:\n                break\n            _seen.add(index)\n            index = nodes[index][1]\n            cond = type(index) is int\n", "R05.5")
+add("C12", "eigenvalue cut-off at the dtype's machine epsilon", "nifty/re/tree_math/util.py", "def _check(v, cut=1e-16):\n    return v > cut", "def _check(v, cut=None):\n    cut = jnp.finfo(v.dtype).eps if cut is None else cut\n    return v > cut", "R12.14")
